@@ -28,4 +28,14 @@ var specs = []*spec{
 		Technique: "deterministic simulation: generated state histories on a simulated clock, save -> ReadState round trip compared accessor by accessor, id-freshness ledger across reloads",
 		LevelText: "Seeded exploration of API histories with repeated reloads; the comparison covers changes, tasks, statuses, waited status, edges, lanes, data, logs, progress, at-time, spawn/ready/doing/undoing times, clean flags, notices, warnings; ids are tracked across all reloads of a run including ids of pruned objects.",
 		LevelNote: noteSampling + " Histories apply statuses directly (restricted to what the engine can produce: a ready change never goes back); runner-produced histories are reloaded by C04's restarts.", DesignRef: "3 Engine A / C05"},
+	{Prop: "C08", Engine: "state", Pkg: "overlord/state", Level: "exploration", QuickS: 30, ThoroS: 420, EngineText: engAText,
+		RuleText:  "Each evaluation is one generated history of notice additions (user/public, 3 types, 3 keys, repeat-after windows), polls and blocking waits by 2-4 clients (uids 0/1000/1001; root default, users=all or user-id=N; type/key filters), clock steps of 0..120 min incl. exact repeat-after boundaries, and restarts from the checkpoint. A run is non-trivial if a client blocked in WaitNotices or a restart happened.",
+		Technique: "deterministic simulation: simulated clients/waiters over real AddNotice/Notices/WaitNotices on a fake clock, timestamp-free reference model numbering occurrence/repeat events, waiter wake-up checked at quiescence",
+		LevelText: "Seeded exploration; every response is compared with a reference model (exactly the matching notices whose latest repeat event is after the client's cursor, in event order, once), user isolation is part of the model, waiters must have returned at the first quiescence after a matching event and must still wait after a non-matching one.",
+		LevelNote: noteSampling + " The HTTP layer is represented by clients that build NoticeFilter as daemon.getNotices does; explicit AddNoticeOptions.Time is outside the quantifier; runs stay inside the 7 day expiry.", DesignRef: "3 Engine A / C08"},
+	{Prop: "C09", Engine: "state", Pkg: "overlord/state", Level: "exploration", QuickS: 30, ThoroS: 420, EngineText: engAText,
+		RuleText:  "Each evaluation builds 1-3 rounds of 1-8 changes (0-3 tasks, ready/partly done/untouched, optional pending attribute, unlinked tasks, notices, warnings) separated by clock steps up to 9 days and calls Prune with drawn start-of-operation, prune wait, abort wait and ready limit; before/after snapshots are judged by the statement's rules. Every run prunes at least once (non-trivial).",
+		Technique: "deterministic simulation: generated histories and simulated clock steps, before/after snapshot oracle around the real State.Prune",
+		LevelText: "Seeded exploration of state histories x prune parameters x clock; rules: removed only if ready longer than retention or over the limit oldest-first (ties accepted), all and only its tasks go, unready never removed unless empty and old, abort only after max(spawn,start)+abortWait and no pending predicate, expired notices/warnings gone.",
+		LevelNote: noteSampling, DesignRef: "3 Engine A / C09"},
 }
